@@ -18,7 +18,13 @@ Import ListNotations.
     (coq/GenPat.v), are the ones the model was written against (coq/PatSource.v). *)
 Theorem model_mirrors_source :
   GenPat.step_pattern_cases = PatSource.modelled_cases /\
-  GenPat.imm_excluded_types = PatSource.imm_excluded /\
+  GenPat.root_accepted_types = PatSource.root_types /\
+  (GenPat.imm_excluded_types = PatSource.imm_excluded /\
+   GenPat.any_excluded_root_types = PatSource.root_types
+   \/
+   (* a source in which a fragment root still passes the child-axis steps: KRoot is the document node only *)
+   GenPat.imm_excluded_types = PatSource.imm_excluded_documents_only /\
+   GenPat.any_excluded_root_types = PatSource.root_types_documents_only) /\
   GenPat.any_cases_shared = PatSource.any_shared /\
   GenPat.any_document_excluded_for = PatSource.any_document_excluded /\
   GenPat.left_check_skipped_after = PatSource.left_any_like /\
@@ -27,7 +33,7 @@ Theorem model_mirrors_source :
   GenPat.head_ops = PatSource.compiled_head_ops /\
   GenPat.attr_tester_axis = PatSource.attribute_tester_axis /\
   forallb (fun b => b) GenPat.all_structure_flags = true.
-Proof. repeat split. Qed.
+Proof. repeat split; first [left; split; reflexivity | right; split; reflexivity]. Qed.
 Print Assumptions model_mirrors_source.
 
 (** The matcher's treatment of one step — node test, then the predicate loop in which flagged or
